@@ -215,7 +215,7 @@ Qed.
 Lemma send_step s i a f cont c :
   loop_at s i a (PSend f cont) ->
   exists s', step c s (Send i) = (s', if Nat.eqb (failn s) 0 then [f] else []) /\
-    loop_at s' i a (if cont then (if Nat.eqb (failn s) 0 then PWait else if ANNOUNCE_ERROR_ENDS_LOOP then PDied else PWait) else PDone) /\
+    loop_at s' i a (if cont then PWait else PDone) /\
     hunt s' = hunt s /\ closed s' = closed s.
 Proof.
   unfold loop_at. intros Hl. simpl. unfold send. rewrite Hl. simpl.
@@ -261,6 +261,7 @@ Theorem stop_undone : forall c s1 a i p x1 x2 x3,
   none_of (is_loop_event i) x2 -> none_of is_close x2 ->
   none_of (is_loop_event i) x3 ->
   let s4 := final c s1 (x1 ++ [Lookup i] ++ x2 ++ [Check i] ++ x3) in
+  loop_at s4 i a (PSend (restore c (amac a)) false) /\
   exists s5,
     step c s4 (Send i) = (s5, if Nat.eqb (failn s4) 0 then [restore c (amac a)] else []) /\
     loop_at s5 i a PDone.
@@ -284,6 +285,7 @@ Proof.
   assert (Hs4 : s4 = final c sd x3).
   { unfold s4, sd, sc, sb, sa. rewrite !final_app. simpl. reflexivity. }
   assert (Hl4 : loop_at s4 i a (PSend (restore c (amac a)) false)) by (rewrite Hs4; apply others_keep; auto).
+  split; [exact Hl4|].
   destruct (send_step s4 i a _ _ c Hl4) as [s5 [E [L _]]]. exists s5. auto.
 Qed.
 
@@ -306,7 +308,7 @@ Proof.
     destruct found; destruct (closed s); simpl; eauto.
   - destruct (send_step s i a f cont c Hl) as [s' [E [L _]]]. rewrite E. simpl. eexists. split; [exact L|].
     split.
-    + destruct cont; [destruct (Nat.eqb (failn s) 0); simpl; auto|simpl; auto].
+    + destruct cont; simpl; auto.
     + destruct (Nat.eqb (failn s) 0); auto.
 Qed.
 
@@ -426,4 +428,136 @@ Proof.
     + unfold check. rewrite Hl. destruct p; try discriminate; simpl; auto.
     + unfold send. rewrite Hl. destruct p; try discriminate; simpl; auto.
   - split; [apply step_loop_kept; auto | discriminate].
+Qed.
+
+(* ---------------------------------------------------------------- *)
+(* "periodically while hunted": while the handler is open every hunted MAC has a loop of its own that is
+   running and has not decided to stop *)
+
+Definition healthy (p : pc) : bool :=
+  match p with
+  | PTop | PWait | PLooked (Some _) | PSend _ true => true
+  | _ => false
+  end.
+
+Definition covered (s : state) : Prop :=
+  closed s = false -> forall m, hunted s m = true ->
+  exists i a p, loop_at s i a p /\ amac a = m /\ healthy p = true.
+
+Lemma covered_step c s e : covered s -> covered (fst (step c s e)).
+Proof.
+  intros Hcov Hc' m Hm.
+  assert (Hc : closed s = false).
+  { destruct (closed s) eqn:E; auto. rewrite (step_closed_mono c s e E) in Hc'. discriminate. }
+  specialize (Hcov Hc).
+  (* events that touch neither the hunt list nor the loops *)
+  assert (Hsame : hunt (fst (step c s e)) = hunt s -> loops (fst (step c s e)) = loops s ->
+                  exists i a p, loop_at (fst (step c s e)) i a p /\ amac a = m /\ healthy p = true).
+  { intros H1 H2. unfold hunted in Hm. rewrite H1 in Hm. destruct (Hcov m Hm) as [i [a [p [Hl H]]]].
+    exists i, a, p. split; auto. unfold loop_at. rewrite H2. exact Hl. }
+  destruct e; simpl in *; try (apply Hsame; reflexivity).
+  - (* StartHunt *)
+    unfold start_hunt in *. destruct (hunt_has (amac a) (hunt s)) eqn:Hh; simpl in *; [apply Hsame; reflexivity|].
+    unfold hunted in Hm. simpl in Hm. rewrite hunt_has_app in Hm. apply orb_true_iff in Hm as [Hm|Hm].
+    + destruct (Hcov m Hm) as [i [a0 [p [Hl H]]]]. exists i, a0, p. split; auto.
+      unfold loop_at in *. simpl. apply nth_error_app_l. exact Hl.
+    + exists (List.length (loops s)), a, PTop. split; [|split; [lia|reflexivity]].
+      unfold loop_at. simpl. rewrite nth_error_app2 by lia. rewrite Nat.sub_diag. reflexivity.
+  - (* StopHunt *)
+    unfold hunted in Hm. simpl in Hm.
+    assert (Hm' : hunt_has m (hunt s) = true).
+    { destruct (N.eq_dec m m0) as [->|Hne]; [rewrite hunt_has_del_same in Hm; discriminate|].
+      rewrite hunt_has_del_other in Hm; auto. }
+    destruct (Hcov m Hm') as [i [a0 [p [Hl H]]]]. exists i, a0, p. split; auto.
+  - (* Lookup *)
+    unfold hunted in Hm. destruct (lookup_state s i) as [Hh _]. rewrite Hh in Hm.
+    destruct (Hcov m Hm) as [j [a0 [p [Hl [Ha Hp]]]]].
+    destruct (Nat.eq_dec i j) as [->|Hne].
+    + unfold lookup, loop_at in *. rewrite Hl. simpl.
+      destruct p; try discriminate; simpl; try (exists j, a0; eexists; split; [exact Hl|auto]).
+      * exists j, a0. eexists. split; [apply (set_pc_same _ _ _ _ Hl)|]. split; auto. simpl.
+        destruct (hunt_find (amac a0) (hunt s)) eqn:Hf; auto. apply hunt_find_none in Hf. rewrite Ha in Hf. congruence.
+      * exists j, a0. eexists. split; [apply (set_pc_same _ _ _ _ Hl)|]. split; auto. simpl.
+        destruct (hunt_find (amac a0) (hunt s)) eqn:Hf; auto. apply hunt_find_none in Hf. rewrite Ha in Hf. congruence.
+    + exists j, a0, p. split; auto. unfold loop_at in *. apply (step_loop_kept c s (Lookup i)); auto.
+      simpl. apply Nat.eqb_neq. auto.
+  - (* Check *)
+    unfold hunted in Hm. destruct (check_state c s i) as [Hh _]. rewrite Hh in Hm.
+    destruct (Hcov m Hm) as [j [a0 [p [Hl [Ha Hp]]]]].
+    destruct (Nat.eq_dec i j) as [->|Hne].
+    + unfold check, loop_at in *. rewrite Hl. simpl.
+      destruct p; try discriminate; simpl; try (exists j, a0; eexists; split; [exact Hl|auto]).
+      destruct found as [t|]; try discriminate. rewrite Hc.
+      exists j, a0. eexists. split; [apply (set_pc_same _ _ _ _ Hl)|]. auto.
+    + exists j, a0, p. split; auto. unfold loop_at in *. apply (step_loop_kept c s (Check i)); auto.
+      simpl. apply Nat.eqb_neq. auto.
+  - (* Send *)
+    unfold hunted in Hm. destruct (send_state s i) as [Hh _]. rewrite Hh in Hm.
+    destruct (Hcov m Hm) as [j [a0 [p [Hl [Ha Hp]]]]].
+    destruct (Nat.eq_dec i j) as [->|Hne].
+    + destruct p; try discriminate; try (unfold send, loop_at in *; rewrite Hl; simpl; exists j, a0; eexists; split; [exact Hl|auto]).
+      destruct cont; try discriminate.
+      destruct (send_step s j a0 f true c Hl) as [s' [E [L _]]]. simpl in E. rewrite E. simpl.
+      exists j, a0, PWait. auto.
+    + exists j, a0, p. split; auto. unfold loop_at in *. apply (step_loop_kept c s (Send i)); auto.
+      simpl. apply Nat.eqb_neq. auto.
+  - destruct (rx_arp_state c s p) as [H1 [H2 _]]. apply Hsame; auto.
+  - destruct (rx_raw_cases c s ethertype payload) as [E|[p E]]; simpl in E; rewrite E in *; [apply Hsame; reflexivity|].
+    destruct (rx_arp_state c s p) as [H1 [H2 _]]. apply Hsame; auto.
+  - destruct (wr2_state s (request_to c MAC_BCAST ip)) as [H1 [H2 _]]. apply Hsame; auto.
+  - destruct (wr2_state s (request_to c dst ip)) as [H1 [H2 _]]. apply Hsame; auto.
+  - destruct (wr2_state s (probe_frame c ip)) as [H1 [H2 _]]. apply Hsame; auto.
+  - destruct (wr2_state s (announce_ip c dst ip)) as [H1 [H2 _]]. apply Hsame; auto.
+  - destruct (wr2_state s (request_raw dst sender target)) as [H1 [H2 _]]. apply Hsame; auto.
+  - destruct (wr2_state s (reply_raw dst sender target)) as [H1 [H2 _]]. apply Hsame; auto.
+  - destruct (scan_go_spec c (scan_ips c) s) as [_ [H1 [H2 _]]]. apply Hsame; auto.
+  - destruct (whois_go_spec c ip (Nat.min tries 3) s) as [_ [H1 [H2 _]]]. apply Hsame; auto.
+Qed.
+
+Theorem hunted_has_loop : forall c evs m,
+  let s := final c init_state evs in
+  closed s = false -> hunted s m = true ->
+  exists i a p, loop_at s i a p /\ amac a = m /\ healthy p = true.
+Proof.
+  intros c evs m s Hc Hm.
+  assert (Hcov : covered s).
+  { unfold s. apply (final_inv covered (fun _ => true) c).
+    - intros s' e H _. apply covered_step; auto.
+    - intros _ m' H'. discriminate.
+    - apply forallb_forall. auto. }
+  exact (Hcov Hc m Hm).
+Qed.
+
+(* a loop at its select whose MAC is hunted: its next iteration (others interleaving, no StopHunt of that MAC
+   before the lookup, no Close before the check) hands the connection the forged announcement for exactly that
+   MAC and the loop goes back to its select — also when the write is refused *)
+Theorem periodic_announce : forall c s a i p x1 x2 x3,
+  loop_at s i a p -> at_select p = true -> closed s = false ->
+  hunted (final c s x1) (amac a) = true ->
+  none_of (is_loop_event i) x1 -> none_of is_close x1 ->
+  none_of (is_loop_event i) x2 -> none_of is_close x2 ->
+  none_of (is_loop_event i) x3 ->
+  let s4 := final c s (x1 ++ [Lookup i] ++ x2 ++ [Check i] ++ x3) in
+  exists s5,
+    step c s4 (Send i) = (s5, if Nat.eqb (failn s4) 0 then [announce c (amac a)] else []) /\
+    loop_at s5 i a PWait.
+Proof.
+  intros c s a i p x1 x2 x3 Hl Hp Hcl Hh N1 C1 N2 C2 N3 s4.
+  set (sa := final c s x1) in *.
+  assert (Hla : loop_at sa i a p) by (apply others_keep; auto).
+  assert (Hca : closed sa = false) by (unfold sa; rewrite closed_kept; auto).
+  destruct (lookup_step c sa i a p Hla Hp) as [_ Hlb].
+  destruct (hunt_find (amac a) (hunt sa)) as [t|] eqn:Hf; [|apply hunt_find_none in Hf; unfold hunted in Hh; congruence].
+  apply hunt_find_some in Hf as [_ Ht].
+  set (sb := fst (step c sa (Lookup i))) in *.
+  assert (Hcb : closed sb = false) by (unfold sb; rewrite step_closed; auto).
+  set (sc := final c sb x2).
+  assert (Hlc : loop_at sc i a (PLooked (Some t))) by (apply others_keep; auto).
+  assert (Hcc : closed sc = false) by (unfold sc; rewrite closed_kept; auto).
+  destruct (check_step c sc i a (Some t) Hlc) as [_ Hld]. rewrite Hcc, Ht in Hld.
+  set (sd := fst (step c sc (Check i))) in *.
+  assert (Hs4 : s4 = final c sd x3).
+  { unfold s4, sd, sc, sb, sa. rewrite !final_app. simpl. reflexivity. }
+  assert (Hl4 : loop_at s4 i a (PSend (announce c (amac a)) true)) by (rewrite Hs4; apply others_keep; auto).
+  destruct (send_step s4 i a _ _ c Hl4) as [s5 [E [L _]]]. exists s5. auto.
 Qed.
